@@ -20,6 +20,9 @@ pub struct Storm {
     pub base: u32,
     pub words: Vec<u16>,
     pub er: [u32; 8],
+    /// part of the index-driven sweep (first word x register value), only counted
+    #[serde(default)]
+    pub sweep: bool,
 }
 
 #[derive(Clone, Debug, Serialize, Deserialize)]
@@ -236,16 +239,25 @@ impl Property for C15 {
     type Scn = Scn;
     const ID: &'static str = "C15";
 
-    fn generate(rng: &mut Rng, tier: Tier, _i: u64) -> Scn {
+    fn generate(rng: &mut Rng, tier: Tier, i: u64) -> Scn {
         let clock = gen_clock_model(rng);
         let clock_seed = rng.next_u64();
-        if rng.chance(3, 5) {
+        // every fourth run index is a storm of the sweep: its first word is (index / 4) mod 65536 and its whole register
+        // file is one adversarial value chosen by (index / 4) / 65536 - every first word meets every such register file
+        // by construction, whatever the seed (262,144 runs per register value; the rest of the run is seeded as usual)
+        let sweep = if i % 4 == 0 { Some((((i / 4) % 65536) as u16, ADV[((i / 4 / 65536) % ADV.len() as u64) as usize])) } else { None };
+        if sweep.is_some() || rng.chance(3, 5) {
             // ---- storm
-            let n = rng.range(1, if tier == Tier::Quick { 24 } else { 64 }) as usize;
+            let n = if sweep.is_some() { rng.range(1, 4) } else { rng.range(1, if tier == Tier::Quick { 24 } else { 64 }) } as usize;
             let mut words = Vec::with_capacity(n);
             let mut prev = None;
-            for _ in 0..n {
-                let w = gen_word(rng, prev);
+            for k in 0..n {
+                let w = match sweep {
+                    Some((w0, _)) if k == 0 => w0,
+                    // behind a swept first word: half of the time plain random (operand / extension words of every kind)
+                    Some(_) if rng.chance(1, 2) => rng.next_u64() as u16,
+                    _ => gen_word(rng, prev),
+                };
                 prev = Some(w);
                 words.push(w);
             }
@@ -266,14 +278,17 @@ impl Property for C15 {
             };
             let mut er = [0u32; 8];
             for r in er.iter_mut() {
-                *r = adv_value(rng);
+                *r = match sweep {
+                    Some((_, v)) => v,
+                    None => adv_value(rng),
+                };
             }
-            if rng.chance(1, 2) {
+            if rng.chance(1, 2) && sweep.is_none() {
                 er[7] = *rng.pick(&[RAM_STACK_TOP, DRAM_STACK_TOP, 0xffff20, 0x600000, 0xffbf24, 0x400004, 0x100]);
             }
             let mut events = Vec::new();
             // registers (ER2 is consumed by run() as the entry address, so it is set at the first boundary)
-            events.push(Event { trig: Trigger::Iter(0), act: Action::SetReg { r: 2, val: adv_value(rng) } });
+            events.push(Event { trig: Trigger::Iter(0), act: Action::SetReg { r: 2, val: sweep.map(|(_, v)| v).unwrap_or_else(|| adv_value(rng)) } });
             events.push(Event { trig: Trigger::Iter(0), act: Action::SetCcr(rng.u8()) });
             if rng.chance(1, 2) {
                 for (i, a) in [0xfee020u32, 0xfee021, 0xfee022, 0xfee023, 0xfee026].iter().enumerate() {
@@ -290,7 +305,7 @@ impl Property for C15 {
             if rng.chance(1, 6) {
                 events.push(Event { trig: Trigger::Iter(rng.below(6)), act: Action::Lines((0..rng.range(1, 4)).map(|_| gen_fuzz_line(rng)).collect()) });
             }
-            return Scn { guest: None, storm: Some(Storm { base, words, er }), events, cfg: SysCfg { wait_start: false, clock, clock_seed, step_cap: 4000, print_msgs: rng.chance(1, 16), print_opcode: rng.chance(1, 16) }, console_full: rng.chance(1, 12) };
+            return Scn { guest: None, storm: Some(Storm { base, words, er, sweep: sweep.is_some() }), events, cfg: SysCfg { wait_start: false, clock, clock_seed, step_cap: 4000, print_msgs: rng.chance(1, 16), print_opcode: rng.chance(1, 16) }, console_full: rng.chance(1, 12) };
         }
         // ---- 1 structured run in 1500: more interrupt acceptances in one run than a 16-bit counter holds
         if rng.chance(1, 1500) {
@@ -437,6 +452,9 @@ impl Property for C15 {
         }
         if storm.is_some() {
             bump(stats, "runs_storm");
+            if storm.as_ref().map(|s| s.sweep).unwrap_or(false) {
+                bump(stats, "runs_storm_sweep_first_word_x_register_value");
+            }
             add(stats, "storm_instructions_executed", run.iters.saturating_sub(1));
         } else {
             bump(stats, "runs_structured");
